@@ -173,6 +173,59 @@ func vfE4GenSpoof(r *vfRand, hist map[string]int, now int64, id, victim int) str
 	return line
 }
 
+// IDENTIFY whose declared size covers a valid JSON document AND bytes after it: closing brackets,
+// NULs, white space, white space + garbage, a whole command line (topic `smuggled` is used nowhere
+// else), optionally padded beyond 512 / 4096 bytes (read boundaries of streaming decoders and of
+// bufio), optionally written in two TCP segments. Only white space may follow the value:
+// everything else is E_BAD_BODY, and no byte of a body may ever be read as a command.
+// Returns the stream, extra tokens for the op line (split points, noident=1) .
+func vfE4GenTrailing(r *vfRand, hist map[string]int) ([]byte, []string) {
+	doc := vfE4IdentifyBody([]byte("hT"), []byte("nT"), []byte("v9"), 4150, 4199)
+	pad := ""
+	switch r.Intn(4) {
+	case 1:
+		pad = strings.Repeat(" ", 500+r.Intn(40))
+	case 2:
+		pad = strings.Repeat(" ", 4000+r.Intn(200))
+	case 3:
+		pad = strings.Repeat("\n", 1+r.Intn(3))
+	}
+	tails := []string{"}", "]", "}}}", "\x00\x00", "x", "null", "{}", " garbage", "\nREGISTER smuggled\n", "\nREGISTER smuggled c\nPING\n",
+		"REGISTER smuggled\n", "\nUNREGISTER t c\n", "\nIDENTIFY\n", "", " ", "\n", "\r\n", " \t\n"}
+	tail := tails[r.Intn(len(tails))]
+	legal := strings.TrimLeft(tail, " \t\r\n") == ""
+	body := string(doc) + pad + tail
+	if !legal && r.Intn(3) == 0 {
+		body = string(doc) + tail + pad // garbage right after the value, then padding
+	}
+	var buf bytes.Buffer
+	buf.WriteString("  V1IDENTIFY\n")
+	binary.Write(&buf, binary.BigEndian, int32(len(body)))
+	bodyAt := buf.Len()
+	buf.WriteString(body)
+	follow := []string{"", "PING\n", "REGISTER t c\nPING\n", "REGISTER x1\n"}[r.Intn(4)]
+	buf.WriteString(follow)
+	var toks []string
+	switch r.Intn(3) {
+	case 1:
+		// split right after the JSON value / one byte before the end of the body
+		toks = append(toks, fmt.Sprintf("split=%d", bodyAt+len(doc)))
+	case 2:
+		toks = append(toks, fmt.Sprintf("split=%d,%d", bodyAt+len(doc), bodyAt+len(body)-1))
+	}
+	if legal {
+		hist["trailing:white-space-only"]++
+		toks = append(toks, "legal=1")
+	} else {
+		hist["trailing:garbage"]++
+		toks = append(toks, "noident=1")
+	}
+	if len(pad) > 400 {
+		hist["trailing:padded"]++
+	}
+	return buf.Bytes(), toks
+}
+
 func vfE4GenStream(r *vfRand, noneg bool, hist map[string]int) ([]byte, []string) {
 	var buf bytes.Buffer
 	var dec []string
@@ -317,15 +370,24 @@ func TestVerifE4Hostile(t *testing.T) {
 		if r.Intn(4) == 0 {
 			line = vfE4GenSpoof(r, hist, env.vnow, id, by)
 		} else {
-			data, _ := vfE4GenStream(r, noneg, hist)
+			var data []byte
+			var toks []string
+			if r.Intn(5) == 0 {
+				data, toks = vfE4GenTrailing(r, hist)
+			} else {
+				data, _ = vfE4GenStream(r, noneg, hist)
+			}
 			dec := vfE4DecodeTable(data)
 			line = fmt.Sprintf("%d stream %d %s", env.vnow, id, vfHex(data))
 			if len(dec) > 0 {
 				line += " " + strings.Join(dec, " ")
 			}
+			if len(toks) > 0 {
+				line += " " + strings.Join(toks, " ")
+			}
 		}
 		id++
-		if len(line) < 4000 {
+		if len(line) < 40000 {
 			fmt.Printf("E4-CURRENT %s\n", line)
 		} else {
 			fmt.Printf("E4-CURRENT (long line, %d bytes)\n", len(line))
